@@ -416,4 +416,4 @@ def coq_eval(name, text, timeout=900):
     with open(v, 'w') as fh:
         fh.write(text)
     with Lock('coqtab-' + name):
-        return sh(['coqc', '-Q', '.', 'Ygm', 'Gen/Tab_%s.v' % name], cwd=COQ, timeout=timeout)
+        return sh('ulimit -s unlimited 2>/dev/null || ulimit -s 1000000; coqc -Q . Ygm Gen/Tab_%s.v' % name, cwd=COQ, timeout=timeout)
